@@ -741,3 +741,13 @@ class CallGraph:
         nodes = sorted(within if within is not None else self.nodes)
         ws = set(nodes)
         return sccs(nodes, lambda v: sorted(x for x in self.edges.get(v, ()) if x in ws))
+
+
+def closure_capture_origins(lib, parent, closure_def):
+    """Origins (in the parent body) of each captured value of the closure `closure_def`, by environment field index.
+    Independent of the captured variables' names."""
+    o = Origins(parent, lib)
+    for _, _, st in parent.stmts():
+        if st["k"] == "assign" and st["rv"]["k"] == "agg" and st["rv"].get("ak") == "closure" and st["rv"].get("def") == closure_def:
+            return [o.of_operand(x) for x in st["rv"]["ops"]]
+    return None
